@@ -1,11 +1,11 @@
 """C15 - solver and preconditioner objects are reusable; calls do not leak state."""
 import json, re
 
-NKINDS = 11
+NKINDS = 12
 
 def run(c):
     th = c.thorough()
-    c.rule = ("model: all call histories of length <= 3 (4 thorough) over 11 call kinds on an object with persistent work registers "
+    c.rule = ("model: all call histories of length <= 3 (4 thorough) over 12 call kinds (incl. rebuild to an exact multiple of the matrix) on an object with persistent work registers "
               "and the LGMRES outer-vector ring (K <= 2..3, <= 3 restarts per call); code: every history TLC emits (1331 / 14641) replayed "
               "on one real object per kind (8 Krylov solvers, preonly, two amg, as_preconditioner, skyline_lu, make_solver) and call by "
               "call on fresh objects, bitwise; op streams of a stride of the histories through the NoLeak monitor. "
@@ -21,6 +21,9 @@ def run(c):
     noreset = c.tlc_model("SolverObject", constants={"MaxCalls": 2, "AlwaysReset": "FALSE"})
     if not noreset["violated"]:
         c.vacuous.append("SolverObject with AlwaysReset=FALSE does not show the documented LGMRES carry-over")
+    stale = c.tlc_model("SolverObject", constants={"MaxCalls": 2, "RebuildAll": "FALSE"})
+    if stale["violated"] != "OneVersion":
+        c.vacuous.append("SolverObject with RebuildAll=FALSE does not violate OneVersion")
     h = c.tlc_model("SolverObject", cfg="SolverObjectHist.cfg", constants={"MaxCalls": calls}, workers=1, coverage=False)
     hists = sorted(set(re.sub(r'[\\" ]', "", m) for m in re.findall(r'HIST <<(.*?)>>', h["output"])))
     if len(hists) != NKINDS ** calls:
